@@ -279,7 +279,8 @@ def real_lex_tokens(s: str) -> str:
 
 LEX_NAMES = ["x", "y", "foo", "a1", "_t", "order", "android", "nothing", "iffy", "elsewhere", "T",
              "Tru", "Fals", "$a", "@b", "x_1", "e", "E5", "d", "j", "e5", "and_", "or2", "If",
-             "true", "NaN", "inf", "min", "i", "n", "ifx", "notx", "else_", "__", "$", "@"]
+             "true", "NaN", "inf", "min", "i", "n", "ifx", "notx", "else_", "__", "$", "@",
+             "Truex", "Falsey", "True_", "False1", "Trueish"]
 
 
 def rand_float(rng):
@@ -408,7 +409,7 @@ def lex_strings(rng, tier):
     for v in ([repr(rand_float(rng)) for _ in range(400 if nq else 8000)]):
         yield v, "repr"
     for s in ["", " ", "\n", "\t \n", "a  b", "a\rb", "1if x", "1 if x", "x.5", "x .5", "1..2", "1.u", "2.5.u",
-              "Truex", "True.x", "and", "andy", "and$x", "and@", "not(x)", "notx", "if", "else1", "1e5é", "andé",
+              "Truex", "True.x", "True$x", "True@", "Falsey", "True1", "True_", "TrueFalse", "True False", "and", "andy", "and$x", "and@", "not(x)", "notx", "if", "else1", "1e5é", "andé",
               "1j", "1.5j", "1e5j", ".5j", "1e5_", "1e5x_", "1.5e3x", "1.5e+x", "1e", "1e+", "1.e", "12ab34",
               "!x", "!=x", "=!", "<<=", ">>>", "<>", "**=", "***", "////", "a.b.c", "...", "$a@1", "@", "$",
               "1e400", "1e-400", "0." + "0" * 400 + "1", "9" * 30, "1" * 400 + ".5", "1e0000000000000000005",
